@@ -187,9 +187,21 @@ package routing
 //@ assigns self.$algoState, arg0.store.$qok
 //@ ensures forall k int :: 0 <= k && k < len(sender) ==> sender[k] != nil
 
-// (A contract for the body of forward - consult the algorithm only without a direct sender, report "forwarded" only
-// after a success, release only after a success - was written and abandoned: exploring the body with its inlined block
-// searches exceeded any reasonable budget. The per-peer goroutine forward$1 is under contract above.)
+// Forwarding: the routing algorithm is consulted only when the destination is not a directly connected peer (its
+// selection has side effects: it marks the returned peers as served / spends copies); a "forwarded" report is sent only
+// after a transmission succeeded and only if requested; the bundle is released only after a successful transmission
+// and is otherwise marked contraindicated (kept, retried); it is deleted only for an exceeded hop limit or lifetime.
+// (The per-peer goroutines are not executed here - their contract is forward$1 above; what they do to the captured
+// flag bundleSent is havoc'd at the go statement.)
+// govc:func (*Core).forward property C05 C06 C15 C13
+//@ opt safety assumed
+//@ requires c.routing != nil && bp.Constraints != nil && bp.bndl != nil && blocksNonNil(*bp.bndl) && ageUnique(*bp.bndl) && bp.Id == bp.bndl.ID() && c.claManager != nil
+//@ atcall SenderForBundle: len(nodes) == 0
+//@ atcall SendStatusReport: arg2 == 1 && arg3 == 0 && bundleSent && (uint64(bp.bndl.PrimaryBlock.BundleControlFlags) & 0x010000) != 0
+//@ atcall PurgeConstraints: bundleSent && deleteAfterwards
+//@ atcall bundleDeletion: arg2 == 9 || arg2 == 1
+//@ atcall senderForDestination: exists j int :: 0 <= j && j < len(bp.bndl.CanonicalBlocks) && is(bp.bndl.CanonicalBlocks[j].Value, *bpv7.PreviousNodeBlock) && bpv7.EndpointID(*(bp.bndl.CanonicalBlocks[j].Value.(*bpv7.PreviousNodeBlock))) == c.NodeId @C06
+//@ loop 0 invariant true
 
 // A bundle whose destination is registered at this node is delivered locally and never handed to forward (not
 // transmitted to peers); every other bundle is forwarded and never delivered locally.
